@@ -344,7 +344,7 @@ def wf (fixed : Bool) (s : PState) : Bool :=
   (decide (0 ≤ s.r.n))
 
 /-- Termination measure: every step strictly decreases it. -/
-def measure (s : PState) : Nat :=
+def pmeasure (s : PState) : Nat :=
   (match s.rpc with | .atSend => 6 | .sent => 4 | .parked => 2 | .returned _ => 0) +
   (match s.mpc with | .handling => 2 | .loop => 1 | .exited => 0) +
   (if s.cancelClosed then 0 else 1) + (if s.closeClosed then 0 else 1)
